@@ -22,6 +22,13 @@ def _run(c, prop):
     c.cov['evaluations'] = res['executed']
     c.cov['distinct_nontrivial'] = res['nontrivial']
     c.cov['samples'] += res['samples'][:2]
+    if prop in ('C26', 'C04'):
+        pr = c.harness(binp, 'jobprobe', {'n': 4 if quick else 16}, timeout=120)
+        c.absorb(pr)
+        c.cov['job_atomicity_probes'] = pr['completed']
+        c.cov['traces_validated_against_impl'] += pr['completed']
+        c.cov['evaluations'] += pr['executed']
+        c.cov['samples'] += pr['samples'][:1]
     c.cov['rule'] = ('behaviours of SubLifecycle.tla from TLC -simulate (operation set and sync/async subscribe callback chosen in Init), each replayed on a real node+client: '
                      'one model step releases one real goroutine from the natural gate / hook it is parked at and follows it to the next; state projection compared after every step; '
                      'non-trivial = complete behaviour ending quiescent with all monitors evaluated, distinct by (ops, step list)')
